@@ -160,6 +160,17 @@ CLAIMED.update({
              technique='Coq proof over a regenerated AST inventory + generic commutation theorem for conflict-free calls; object inspection and TSan stress as supporting runs',
              ref='DESIGN.md section 4 C16'),
 })
+CLAIMED.update({
+ 'C20': dict(text='PARTIAL (one known finding: aaf/Aaf.h + aaf/Pcm.h). Theorem C20_pairs_partial: over the header units regenerated from include/avtp/**/*.h on every run (macros with the identifiers of '
+                  'their bodies, ordinary identifiers and tags from the clang AST of each header alone, identifier tokens, include graph), every ordered pair of different headers except the known one is '
+                  'non-interfering; C20_includes_first; Theorem C20_subsets_partial (generic proof + the pair computation): for EVERY selection of headers in EVERY order that is closed under #include and does '
+                  'not contain the known pair, no name or tag is introduced twice and every identifier any header mentions is bound (to a macro body or to nothing) exactly as when that header is included alone. '
+                  'The full statement is kept as C20_full_statement; C20_known_pair_refuted exhibits the clash.',
+             note='A name/token-level model of the preprocessor and of C declaration rules (no C typing). Tie: all 650 ordered pairs x {gcc -std=c99, g++ -std=c++11} are compiled with static assertions on 527 stand-alone '
+                  'values (enumerators, integer macros, sizeof); the compilers\' verdict per pair must equal the model\'s. Print Assumptions: closed under the global context.',
+             technique='Coq proof (pairwise non-interference lifted to all subsets and orders) over regenerated header units; exhaustive pair compile sweep as tie and search',
+             ref='DESIGN.md section 4 C20'),
+})
 ALL = ['C%02d' % i for i in range(1, 21)]
 def main():
     checks = []
